@@ -2,7 +2,7 @@
 import os, copy, importlib.util
 from vx.assemble import Fn, Type, Raw, Loop, ClosureRw, FnRw, cmp_rw
 
-PROPERTIES = ['C14']
+PROPERTIES = ['C14', 'C15']
 HEADER = '#![feature(allocator_api)]'
 STDMODEL = ['iter.rs', 'hash.rs', 'btree.rs', 'std.rs']
 EV = 'cedar-policy-core/src/tpe/evaluator.rs'
